@@ -5,11 +5,19 @@
    which element and in which order in-flight calls complete are part of the schedule.
    [fork_cfg n g cl icaps ocaps]: n workers running the stateless per-element code g (the codes of
    fork.Map/FMap/Filter/Partition/ForEach/Void are [map_code], [fmap_code], [filter_code], ...).
+   FAIL-FAST MODE (fork.Map / fork.FMap under Lift / LiftF / Pure, codes [map_code f false] /
+   [fmap_code f false]: a failing element makes its worker do the PLAIN send `exx <- err` and return)
+   is covered by the C09_fork_failfast_* theorems at the end: that send never blocks when
+   par <= cap(exx) (fork.go: make(chan error, par)) - and DOES block for ever, context cancelled or
+   not, with a smaller capacity (witness); hence the stage exits on cancel / drain with every worker
+   returned and both outputs closed; at most par errors are ever produced.  C09_fork_safe and
+   C09_fork_nopanic hold for every code, fail-fast included; C09_fork_complete is about codes
+   without `return` (a fail-fast stage legitimately stops short of the whole input).
    Not carried by these theorems: data-race freedom (a property of the Go memory model; the
    thorough tier runs the race detector) and scheduler fairness. *)
 From Coq Require Import List ZArith Permutation.
 From Golem Require Import Base.Lists Pipe.Pool Pipe.Stages Pipe.PoolSteps Pipe.PoolSafe Pipe.PoolLive Pipe.PoolSimple
-     Pipe.PoolSeq Pipe.PoolMulti Pipe.PoolMultiStages Pipe.PoolStages.
+     Pipe.PoolSeq Pipe.PoolMulti Pipe.PoolMultiStages Pipe.PoolStages Pipe.PoolForkErr.
 Import ListNotations.
 Open Scope Z_scope.
 
@@ -77,3 +85,126 @@ Theorem C09_instances : forall (f : Z -> res) (p : Z -> bool) (try : bool) (n : 
 Proof. exact (fun f p try n icaps ocaps => conj (fork_map_is f try n icaps ocaps) (conj (fork_filter_is p n icaps ocaps)
               (conj (fork_partition_is p n icaps ocaps) (fork_visit_is n icaps ocaps)))). Qed.
 Print Assumptions C09_instances.
+
+(* ================= FAIL-FAST MODE: the plain error hand-off `exx <- err` ================= *)
+
+(* the per-element codes of fork.Map / fork.FMap under Lift satisfy the hypotheses used below with k = 1 (the
+   error channel): whoever writes on k then returns; at most one value per element; only sends, polls and
+   returns; no plain send on any other channel.  fork.FMap is an instance of fork_cfg like the others *)
+Theorem C09_failfast_codes : forall (f : Z -> res) (h : Z -> list Z * option Z),
+  failfast_code (map_code f false) 1 /\ failfast_code (fmap_code h false) 1 /\
+  forall (try : bool) (n : nat) (icaps ocaps : list nat),
+    fork_stage n false (plan_fmap h try) [0%nat; 1%nat] icaps ocaps = fork_cfg n (fmap_code h try) [0%nat; 1%nat] icaps ocaps.
+Proof. exact (fun f h => conj (map_failfast_code f) (conj (fmap_failfast_code h) (fork_fmap_is h))). Qed.
+Print Assumptions C09_failfast_codes.
+
+(* THE PLAIN SEND NEVER BLOCKS: in every reachable state, a worker standing at `out_k <- e` finds room in the
+   buffer, provided the channel has one slot per worker (every worker sends at most once in its life, and the
+   one standing at the send has not sent yet: at most n - 1 slots are taken) *)
+Theorem C09_fork_failfast_err_never_blocks : forall (n : nat) (g : Z -> list act) (cl icaps ocaps : list nat) (k : nat),
+  (forall a, has_stop (g a) = false -> emits k (g a) = []) ->
+  (forall a, (length (emits k (g a)) <= 1)%nat) ->
+  forall (s : state) (w : nat) (eof : bool) (e : val) (rest : list act),
+  reachable (fork_cfg n g cl icaps ocaps) s -> (w < n)%nat -> (n <= nth_cap ocaps k)%nat ->
+  wc (ws s w) = WRun eof (APlain k e :: rest) -> has_room (outs s k) = true.
+Proof. exact fork_err_never_blocks. Qed.
+Print Assumptions C09_fork_failfast_err_never_blocks.
+
+(* the same for fork.Map / fork.FMap themselves, gated by the harness or not, whatever the closer closes *)
+Theorem C09_fork_map_failfast_err_never_blocks :
+  forall (f : Z -> res) (gate : bool) (n : nat) (cl icaps ocaps : list nat) (s : state) (w : nat) (eof : bool) (e : val) (rest : list act),
+  let c := fork_stage n gate (plan_map f false) cl icaps ocaps in
+  reachable c s -> (w < n)%nat -> (n <= nth_cap ocaps 1)%nat ->
+  wc (ws s w) = WRun eof (APlain 1 e :: rest) -> has_room (outs s 1) = true.
+Proof. exact fork_map_err_never_blocks. Qed.
+Print Assumptions C09_fork_map_failfast_err_never_blocks.
+
+Theorem C09_fork_fmap_failfast_err_never_blocks :
+  forall (f : Z -> list Z * option Z) (gate : bool) (n : nat) (cl icaps ocaps : list nat) (s : state) (w : nat) (eof : bool) (e : val) (rest : list act),
+  let c := fork_stage n gate (plan_fmap f false) cl icaps ocaps in
+  reachable c s -> (w < n)%nat -> (n <= nth_cap ocaps 1)%nat ->
+  wc (ws s w) = WRun eof (APlain 1 e :: rest) -> has_room (outs s 1) = true.
+Proof. exact fork_fmap_err_never_blocks. Qed.
+Print Assumptions C09_fork_fmap_failfast_err_never_blocks.
+
+(* THE CAPACITY IS NEEDED (the goroutine leak of `exx := make(chan error, 1)`): fork.Map with two workers, a
+   function failing on every element, an error channel of capacity 1 and nobody receiving reaches a state in
+   which the context is cancelled, the input is closed, nothing is enabled - and worker 1 is parked at the
+   plain send without room, not returned; the closer has not run and neither output is closed *)
+Theorem C09_fork_failfast_needs_capacity :
+  let c := fork_stage 2 false (plan_map (fun x => Err (1000 + x)) false) [0%nat; 1%nat] [0%nat] [2%nat; 1%nat] in
+  exists s, reachable c s /\ cancelled s = true /\ cclosed (ins s 0) = true /\ quiescent c s /\
+            wc (ws s 1) = WRun false [APlain 1 1002; AStop] /\ has_room (outs s 1) = false /\
+            wc (ws s 1) <> WDone /\ closer_done s = false /\ cclosed (outs s 0) = false /\ cclosed (outs s 1) = false.
+Proof. exact fork_err_needs_capacity. Qed.
+Print Assumptions C09_fork_failfast_needs_capacity.
+
+(* EXIT (the C06 guarantees, failures included): input closed, nothing enabled, and either the context is
+   cancelled - whether or not anybody ever receives - or nothing is left to receive: every worker has
+   returned, the wg.Wait() goroutine has run, every channel it owns is closed *)
+Theorem C09_fork_failfast_exit : forall (n : nat) (g : Z -> list act) (cl icaps ocaps : list nat) (k : nat),
+  (forall a, has_stop (g a) = false -> emits k (g a) = []) ->
+  (forall a, (length (emits k (g a)) <= 1)%nat) ->
+  NoDup cl -> (forall a, Forall simple_act (g a)) ->
+  (forall a k' v, In (APlain k' v) (g a) -> k' = k) ->
+  (n <= nth_cap ocaps k)%nat ->
+  forall s : state,
+  let c := fork_cfg n g cl icaps ocaps in
+  reachable c s -> quiescent c s -> cclosed (ins s 0) = true ->
+  cancelled s = true \/ no_receive c s ->
+  (forall w, (w < n)%nat -> wc (ws s w) = WDone) /\ closer_done s = true /\
+  (forall k', In k' cl -> cclosed (outs s k') = true).
+Proof. exact fork_failfast_exit. Qed.
+Print Assumptions C09_fork_failfast_exit.
+
+Theorem C09_fork_map_failfast_exit : forall (f : Z -> res) (n : nat) (icaps ocaps : list nat) (s : state),
+  let c := fork_stage n false (plan_map f false) [0%nat; 1%nat] icaps ocaps in
+  (n <= nth_cap ocaps 1)%nat ->
+  reachable c s -> quiescent c s -> cclosed (ins s 0) = true -> cancelled s = true \/ no_receive c s ->
+  (forall w, (w < n)%nat -> wc (ws s w) = WDone) /\ closer_done s = true /\
+  cclosed (outs s 0) = true /\ cclosed (outs s 1) = true.
+Proof. exact fork_map_failfast_exit. Qed.
+Print Assumptions C09_fork_map_failfast_exit.
+
+Theorem C09_fork_fmap_failfast_exit : forall (f : Z -> list Z * option Z) (n : nat) (icaps ocaps : list nat) (s : state),
+  let c := fork_stage n false (plan_fmap f false) [0%nat; 1%nat] icaps ocaps in
+  (n <= nth_cap ocaps 1)%nat ->
+  reachable c s -> quiescent c s -> cclosed (ins s 0) = true -> cancelled s = true \/ no_receive c s ->
+  (forall w, (w < n)%nat -> wc (ws s w) = WDone) /\ closer_done s = true /\
+  cclosed (outs s 0) = true /\ cclosed (outs s 1) = true.
+Proof. exact fork_fmap_failfast_exit. Qed.
+Print Assumptions C09_fork_fmap_failfast_exit.
+
+(* non-vacuity: the run of C09_fork_failfast_needs_capacity with cap(exx) = par = 2 goes on - worker 1's error
+   fits, it returns, the closer runs - to a state satisfying every hypothesis of C09_fork_map_failfast_exit *)
+Theorem C09_fork_failfast_exit_nonvacuous :
+  let c := fork_stage 2 false (plan_map (fun x => Err (1000 + x)) false) [0%nat; 1%nat] [0%nat] [2%nat; 2%nat] in
+  exists s, (2 <= nth_cap [2%nat; 2%nat] 1)%nat /\ reachable c s /\ quiescent c s /\
+            cclosed (ins s 0) = true /\ cancelled s = true /\
+            map snd (cbuf (outs s 1)) = [1001; 1002] /\ closer_done s = true.
+Proof. exact (ex_intro _ noleak_state fork_failfast_exit_nonvacuous). Qed.
+Print Assumptions C09_fork_failfast_exit_nonvacuous.
+
+(* WHAT IS DELIVERED: by C09_fork_safe every output is a sub-multiset of the image of what was taken; and on the
+   error channel at most one value per worker ever appears (received or still buffered) *)
+Theorem C09_fork_failfast_at_most_n_errors : forall (n : nat) (g : Z -> list act) (cl icaps ocaps : list nat) (k : nat),
+  (forall a, has_stop (g a) = false -> emits k (g a) = []) ->
+  (forall a, (length (emits k (g a)) <= 1)%nat) ->
+  forall s : state, reachable (fork_cfg n g cl icaps ocaps) s ->
+  (length (delivered s k) + length (cbuf (outs s k)) <= n)%nat.
+Proof. exact fork_at_most_n_errors. Qed.
+Print Assumptions C09_fork_failfast_at_most_n_errors.
+
+Theorem C09_fork_map_failfast_at_most_n_errors :
+  forall (f : Z -> res) (gate : bool) (n : nat) (cl icaps ocaps : list nat) (s : state),
+  reachable (fork_stage n gate (plan_map f false) cl icaps ocaps) s ->
+  (length (delivered s 1) + length (cbuf (outs s 1)) <= n)%nat.
+Proof. exact fork_map_at_most_n_errors. Qed.
+Print Assumptions C09_fork_map_failfast_at_most_n_errors.
+
+Theorem C09_fork_fmap_failfast_at_most_n_errors :
+  forall (f : Z -> list Z * option Z) (gate : bool) (n : nat) (cl icaps ocaps : list nat) (s : state),
+  reachable (fork_stage n gate (plan_fmap f false) cl icaps ocaps) s ->
+  (length (delivered s 1) + length (cbuf (outs s 1)) <= n)%nat.
+Proof. exact fork_fmap_at_most_n_errors. Qed.
+Print Assumptions C09_fork_fmap_failfast_at_most_n_errors.
